@@ -26,11 +26,21 @@ package ircserver
 // inside a handler sessions may carry deleted = true: wfMid is the same
 // without that conjunct).
 
-//@ pred wfSessions(i *IRCServer) = i.sessions != nil && (forall id robust.Id :: id in i.sessions ==> i.sessions[id] != nil && i.sessions[id].Id == id && i.sessions[id].Channels != nil && i.sessions[id].invitedTo != nil)
-//@ pred wfNicks(i *IRCServer) = i.nicks != nil && (forall n lcNick :: n in i.nicks ==> i.nicks[n] != nil)
-//@ pred wfChannels(i *IRCServer) = i.channels != nil && (forall ch lcChan :: ch in i.channels ==> i.channels[ch] != nil && i.channels[ch].nicks != nil && (forall n lcNick :: n in i.channels[ch].nicks ==> i.channels[ch].nicks[n] != nil && n in i.nicks))
+// allocated(x): x is an object that exists in the current heap (true of every reference a Go program can hold;
+// stated so that freshly allocated objects are known to differ from the ones the maps hold).
+//@ pred wfSessions(i *IRCServer) = i.sessions != nil && (forall id robust.Id :: id in i.sessions ==> i.sessions[id] != nil && allocated(i.sessions[id]) && i.sessions[id].Id == id && i.sessions[id].Channels != nil && allocated(i.sessions[id].Channels) && i.sessions[id].invitedTo != nil && allocated(i.sessions[id].invitedTo)) && (forall a robust.Id, b robust.Id :: a in i.sessions && b in i.sessions ==> i.sessions[a].Channels != i.sessions[b].invitedTo)
+//@ pred wfNicks(i *IRCServer) = i.nicks != nil && (forall n lcNick :: n in i.nicks ==> i.nicks[n] != nil && allocated(i.nicks[n]) && i.nicks[n].Id in i.sessions && i.sessions[i.nicks[n].Id] == i.nicks[n])
+// symmetric membership, one direction: a live session that lists a channel is listed by that channel
+// (the other direction is in wfChannels: every member is an owned nickname)
+//@ pred wfMember(i *IRCServer) = forall id robust.Id, ch lcChan :: id in i.sessions && !i.sessions[id].deleted && ch in i.sessions[id].Channels ==> i.sessions[id].Nick != "" && ch in i.channels && NickToLower(i.sessions[id].Nick) in i.channels[ch].nicks
+// nickname ownership: a live session with a nickname owns it in the index (hence no two live sessions
+// have nicknames that are equal under the IRC case mapping)
+//@ pred wfOwner(i *IRCServer) = forall id robust.Id :: id in i.sessions && !i.sessions[id].deleted && i.sessions[id].Nick != "" ==> NickToLower(i.sessions[id].Nick) in i.nicks && i.nicks[NickToLower(i.sessions[id].Nick)] == i.sessions[id]
+//@ pred wfChannels(i *IRCServer) = i.channels != nil && (forall ch lcChan :: ch in i.channels ==> i.channels[ch] != nil && allocated(i.channels[ch]) && i.channels[ch].nicks != nil && allocated(i.channels[ch].nicks) && ChanToLower(i.channels[ch].name) == ch && (forall n lcNick :: n in i.channels[ch].nicks ==> i.channels[ch].nicks[n] != nil && allocated(i.channels[ch].nicks[n]) && n in i.nicks)) && (forall a lcChan, b lcChan :: a in i.channels && b in i.channels && a != b ==> i.channels[a].nicks != i.channels[b].nicks)
+//@ pred msgTime(m *robust.Message) = ite(m.UnixNano == 0, time.Unix(0, m.Id.Id), time.Unix(0, m.UnixNano))
 //@ pred wfLocks(i *IRCServer) = i.sessionsMu != nil && i.lastProcessedMu != nil && i.ConfigMu != nil && i.ServerPrefix != nil
-//@ pred wfMid(i *IRCServer) = i != nil && wfLocks(i) && wfSessions(i) && wfNicks(i) && wfChannels(i) && i.svsholds != nil
+//@ pred wfBase(i *IRCServer) = i != nil && wfLocks(i) && i.svsholds != nil && i.Config.Banned != nil
+//@ pred wfMid(i *IRCServer) = wfBase(i) && wfSessions(i) && wfNicks(i) && wfChannels(i) && wfMember(i) && wfOwner(i)
 
 // A reply context under construction: send() indexes the last message when
 // called again with the same irc.Message.
@@ -124,3 +134,153 @@ package ircserver
 //@     invariant forall ch lcChan :: seen(ch, "range user.Channels") ==> ch in user.Channels
 //@     invariant seen(channelname, "range user.Channels")
 //@     invariant forall k uint64 :: k in robustmsg.InterestingFor <==> hadBefore(reply, msg, k) || (exists ch lcChan, n lcNick :: seen(ch, "range user.Channels") && ch != channelname && ch in i.channels && n in i.channels[ch].nicks && i.nicks[n].Id.Id == k) || (exists n lcNick :: seen(n) && i.nicks[n].Id.Id == k)
+
+// ---------------------------------------------------------------------------
+// Duplicate detection marker (C10)
+
+//@ func IRCServer.UpdateLastClientMessageID
+//@   requires i != nil && wfLocks(i) && wfSessions(i) && msg != nil
+//@   ensures found: msg.Session in i.sessions ==> result == nil && i.sessions[msg.Session].lastClientMessageId == msg.ClientMessageId && i.sessions[msg.Session].LastActivity == msgTime(msg)
+//@   ensures missing: !(msg.Session in i.sessions) ==> result != nil
+//@   modifies Session.LastActivity[i.sessions[msg.Session]], Session.LastNonPing[i.sessions[msg.Session]], Session.lastClientMessageId[i.sessions[msg.Session]]
+
+//@ func IRCServer.LastPostMessage
+//@   requires i != nil && wfLocks(i) && wfSessions(i)
+//@   ensures found: sessionid in i.sessions ==> result == i.sessions[sessionid].lastClientMessageId
+//@   ensures missing: !(sessionid in i.sessions) ==> result == 0
+//@   modifies
+
+//@ func IRCServer.SetLastProcessed
+//@   requires i != nil && wfLocks(i)
+//@   ensures i.lastProcessed == id
+//@   modifies IRCServer.lastProcessed[i]
+
+//@ func IRCServer.SessionLimit
+//@   requires i != nil && i.ConfigMu != nil
+//@   ensures result == i.Config.MaxSessions
+//@   modifies
+//@ func IRCServer.ChannelLimit
+//@   requires i != nil && i.ConfigMu != nil
+//@   ensures result == i.Config.MaxChannels
+//@   modifies
+
+// ---------------------------------------------------------------------------
+// Session creation and deletion (C14, C17)
+
+//@ func IRCServer.createSessionLocked
+//@   requires i != nil && wfLocks(i) && wfSessions(i)
+//@   ensures limit: result != nil <==> (i.Config.MaxSessions > 0 && old(len(i.sessions)) >= i.Config.MaxSessions)
+//@   ensures refused: result != nil ==> (forall x robust.Id :: x in i.sessions <==> old(x in i.sessions)) && len(i.sessions) == old(len(i.sessions))
+//@   ensures created: result == nil ==> id in i.sessions && fresh(i.sessions[id]) && i.sessions[id].Id == id && i.sessions[id].auth == auth && i.sessions[id].Nick == "" && !i.sessions[id].loggedIn && !i.sessions[id].Server && !i.sessions[id].Operator && !i.sessions[id].deleted && i.sessions[id].LastActivity == timestamp && len(i.sessions[id].Channels) == 0 && i.sessions[id].lastClientMessageId == 0
+//@   ensures others: forall x robust.Id :: x != id ==> (x in i.sessions <==> old(x in i.sessions)) && (x in i.sessions ==> i.sessions[x] == old(i.sessions[x]))
+//@   ensures wf: wfSessions(i)
+//@   modifies map[i.sessions]
+
+// Case mapping. The result is a function of the argument only (the replacer is
+// an immutable package variable); nothing else about it is assumed here.
+//@ func NickToLower
+//@   pure
+//@ func ChanToLower
+//@   pure
+
+// Removes the channel from the index when its last member is gone, together
+// with the invitations that name it. Nothing else changes.
+//@ func IRCServer.maybeDeleteChannelLocked
+//@   requires i != nil && wfSessions(i) && i.channels != nil && c != nil
+//@   ensures kept: (exists n lcNick :: n in c.nicks) ==> (forall ch lcChan :: ch in i.channels <==> old(ch in i.channels))
+//@   ensures removed: !(exists n lcNick :: n in c.nicks) ==> !(ChanToLower(c.name) in i.channels) && (forall ch lcChan :: ch != ChanToLower(c.name) ==> (ch in i.channels <==> old(ch in i.channels)))
+//@   ensures vals: forall ch lcChan :: ch in i.channels ==> i.channels[ch] == old(i.channels[ch])
+//@   ensures sessions: wfSessions(i)
+//@   ensures onlyremoves: forall m map[lcChan]bool, k lcChan :: k in m ==> old(k in m)
+//@   ensures channelskept: forall id robust.Id, k lcChan :: id in i.sessions && old(k in i.sessions[id].Channels) ==> k in i.sessions[id].Channels
+//@   modifies map[i.channels], maptype(map[lcChan]bool)
+//@   loop range i.sessions
+//@     invariant wfSessions(i)
+//@     invariant forall m map[lcChan]bool, k lcChan :: k in m ==> old(k in m)
+//@     invariant forall id robust.Id, k lcChan :: id in i.sessions && old(k in i.sessions[id].Channels) ==> k in i.sessions[id].Channels
+
+// End of a session (QUIT, KILL, ban, expiry, DELETE): its nickname is free and
+// it is on no channel any more; the Session object itself stays in
+// i.sessions, marked deleted, until MaybeDeleteSession.
+//@ func IRCServer.deleteSessionLocked
+//@   requires wfMid(i) && s != nil
+//@   ensures nickfree: !(NickToLower(s.Nick) in i.nicks)
+//@   ensures left: forall ch lcChan :: ch in i.channels ==> !(NickToLower(s.Nick) in i.channels[ch].nicks)
+//@   ensures marked: s.deleted
+//@   ensures othernicks: forall n lcNick :: n != NickToLower(s.Nick) ==> (n in i.nicks <==> old(n in i.nicks)) && (n in i.nicks ==> i.nicks[n] == old(i.nicks[n]))
+//@   ensures nonewchannels: forall ch lcChan :: ch in i.channels ==> old(ch in i.channels) && i.channels[ch] == old(i.channels[ch])
+//@   ensures sessions: wfSessions(i) && (forall x robust.Id :: x in i.sessions <==> old(x in i.sessions))
+//@   modifies map[i.nicks], map[i.channels], maptype(map[lcChan]bool), maptype(map[lcNick]*[2]bool), Session.deleted[s]
+//@   loop range i.channels
+//@     invariant wfSessions(i) && i.channels != nil && i.nicks != nil
+//@     invariant forall ch lcChan :: ch in i.channels ==> old(ch in i.channels) && i.channels[ch] == old(i.channels[ch]) && i.channels[ch] != nil
+//@     invariant forall ch lcChan :: seen(ch) && ch in i.channels ==> !(NickToLower(s.Nick) in i.channels[ch].nicks)
+//@     invariant forall x robust.Id :: x in i.sessions <==> old(x in i.sessions)
+
+//@ func IRCServer.CreateSession
+//@   requires i != nil && wfLocks(i) && wfSessions(i)
+//@   ensures limit: result != nil <==> (i.Config.MaxSessions > 0 && old(len(i.sessions)) >= i.Config.MaxSessions)
+//@   ensures created: result == nil ==> id in i.sessions && i.sessions[id].Id == id && i.sessions[id].auth == auth && i.sessions[id].Nick == "" && !i.sessions[id].loggedIn && !i.sessions[id].Server && !i.sessions[id].Operator && i.sessions[id].LastActivity == timestamp
+//@   ensures others: forall x robust.Id :: x != id ==> (x in i.sessions <==> old(x in i.sessions)) && (x in i.sessions ==> i.sessions[x] == old(i.sessions[x]))
+//@   ensures wf: wfSessions(i)
+//@   modifies map[i.sessions]
+
+// Removes the sessions that were marked deleted while the entry was
+// processed: the acting session itself, or any session if the acting session
+// is a services link or an IRC operator (they can remove other users).
+//@ func IRCServer.MaybeDeleteSession
+//@   requires i != nil && wfLocks(i) && wfSessions(i)
+//@   ensures gone: old(session in i.sessions) && old(i.sessions[session].deleted) ==> !(session in i.sessions)
+//@   ensures sweep: old(session in i.sessions) && (old(i.sessions[session].Server) || old(i.sessions[session].Operator)) ==> (forall x robust.Id :: x in i.sessions ==> !i.sessions[x].deleted)
+//@   ensures onlydeleted: forall x robust.Id :: old(x in i.sessions) && !old(i.sessions[x].deleted) ==> x in i.sessions
+//@   ensures nonew: forall x robust.Id :: x in i.sessions ==> old(x in i.sessions) && i.sessions[x] == old(i.sessions[x])
+//@   ensures wf: wfSessions(i)
+//@   modifies map[i.sessions]
+//@   loop range i.sessions
+//@     invariant forall x robust.Id :: x in i.sessions ==> old(x in i.sessions) && i.sessions[x] == old(i.sessions[x])
+//@     invariant forall x robust.Id :: old(x in i.sessions) && !old(i.sessions[x].deleted) ==> x in i.sessions
+//@     invariant forall x robust.Id :: seen(x) && x in i.sessions ==> !i.sessions[x].deleted
+//@     invariant ok && s == old(i.sessions[session]) && old(session in i.sessions)
+
+// The expiry sweep: proposes deletion for exactly the client sessions
+// (Reply == 0; services pseudo-clients have Reply != 0) whose last activity is
+// older than the configured expiration.
+//@ func IRCServer.ExpireSessions
+//@   requires i != nil && wfLocks(i) && wfSessions(i)
+//@   ensures only: forall k int :: 0 <= k && k < len(result) ==> result[k] != nil && result[k].Type == robust.DeleteSession && result[k].Session.Reply == 0 && result[k].Session in i.sessions && time.Since(i.sessions[result[k].Session].LastActivity) > i.Config.SessionExpiration
+//@   ensures all: forall id robust.Id :: id in i.sessions && id.Reply == 0 && time.Since(i.sessions[id].LastActivity) > i.Config.SessionExpiration ==> (exists k int :: 0 <= k && k < len(result) && result[k].Session == id)
+//@   modifies
+//@   loop range i.sessions
+//@     invariant forall k int :: 0 <= k && k < len(deletes) ==> deletes[k] != nil && fresh(deletes[k]) && deletes[k].Type == robust.DeleteSession && deletes[k].Session.Reply == 0 && deletes[k].Session in i.sessions && time.Since(i.sessions[deletes[k].Session].LastActivity) > i.Config.SessionExpiration
+//@     invariant forall id robust.Id :: seen(id) && id.Reply == 0 && time.Since(i.sessions[id].LastActivity) > i.Config.SessionExpiration ==> (exists k int :: 0 <= k && k < len(deletes) && deletes[k].Session == id)
+//@     invariant forall id robust.Id :: seen(id) ==> id in i.sessions
+
+// ---------------------------------------------------------------------------
+// Command handlers. Every function registered in Commands inherits the
+// clauses of this template (plus `requires params: len(msg.Params) >= N` with
+// N the smallest MinParams it is registered with); the dispatch in
+// ProcessMessage is checked against the template.
+
+//@ func handler
+//@   requires state: wfMid(i) && s != nil && replyOK(reply) && msg != nil
+//@   requires session: s.Id in i.sessions && i.sessions[s.Id] == s
+//@   ensures owner: wfOwner(i)
+//@   ensures base: wfBase(i)
+//@   ensures sessions: wfSessions(i)
+//@   ensures nicks: wfNicks(i)
+//@   ensures channels: wfChannels(i)
+//@   ensures member: wfMember(i)
+//@   ensures reply: replyOK(reply)
+//@   ensures keeps: forall x robust.Id :: old(x in i.sessions) ==> x in i.sessions && i.sessions[x] == old(i.sessions[x])
+//@   modifies *
+
+//@ func IRCServer.ProcessMessage
+//@   requires state: wfMid(i) && msg != nil && msg.Session in i.sessions
+//@   ensures base: wfBase(i)
+//@   ensures sessions: wfSessions(i)
+//@   ensures nicks: wfNicks(i)
+//@   ensures channels: wfChannels(i)
+//@   ensures member: wfMember(i)
+//@   ensures owner: wfOwner(i)
+//@   ensures reply: result != nil && replyOK(result)
+//@   modifies *
